@@ -62,11 +62,18 @@ func runSolver(name string, args []string, file string, timeoutMs int) solverRes
 }
 
 var solveCache sync.Map
+var solveFlight sync.Map // key -> *sync.Mutex (identical queries are solved once)
 
 // Solve runs the race for one query text. Only z3 variants are asked for a model.
 func Solve(cfg *SolverCfg, smt string, wantModel bool) solverResult {
 	h := sha256.Sum256([]byte(smt))
 	key := hex.EncodeToString(h[:12])
+	if r, ok := solveCache.Load(key); ok {
+		return r.(solverResult)
+	}
+	mu, _ := solveFlight.LoadOrStore(key, &sync.Mutex{})
+	mu.(*sync.Mutex).Lock()
+	defer mu.(*sync.Mutex).Unlock()
 	if r, ok := solveCache.Load(key); ok {
 		return r.(solverResult)
 	}
@@ -110,6 +117,8 @@ func Solve(cfg *SolverCfg, smt string, wantModel bool) solverResult {
 		}
 	}
 	best.ms += r.ms
-	solveCache.Store(key, best)
+	if best.status != "error" {
+		solveCache.Store(key, best)
+	}
 	return best
 }
